@@ -453,7 +453,8 @@ def run(a, res):
         if violation is not None:
             key, text = violation
             if not key.endswith(":other-message"):
-                key = key + ":" + c["mut"].split("_")[0]
+                # with pipeline_prefetch > 0 the anomaly kind is (so far always) irrelevant: keep the key coarse
+                key = key + ":" + ("pipelined" if c["prefetch"] else c["mut"].split("_")[0])
             res.violation(key, f"mutation {c['mut']}, relaxed_header_parser {c['relaxed']}, pipeline_prefetch {c['prefetch']}, before={c['before']} after={c['after']}: {text}; "
                                                               f"client statuses {statuses}; upstream ids {[u.req_id for u in ups]}", wit(c))
             return
